@@ -315,6 +315,9 @@ func (d *DisclosureProofBuilder) Commit(randomizers map[string]*big.Int) ([]*big
 	}
 	z := big.NewInt(1)
 	if d.proofPcomm != nil {
+		if d.proofPcomm.Pcommit == nil {
+			return nil, errors.New("keyshare server's commitment is incomplete")
+		}
 		z.Set(d.proofPcomm.Pcommit)
 	}
 	z.Mul(z, Ae).Mul(z, Sv).Mod(z, d.pk.N)
